@@ -1,6 +1,8 @@
 """Abstract state of the STIR interpreter: values, memory objects, facts, frames."""
 import math
-from .terms import Lin, L, ZERO, eval_lin, base_atoms
+from .terms import Lin, L, ZERO, eval_lin, eval_atom, base_atoms
+
+DERIVED = ('and', 'or', 'xor', 'lshr', 'ashr', 'shl', 'mul', 'udiv', 'urem', 'mod', 'smod')
 
 INF = 1 << 200
 ADDR_BITS = 47          # x86-64 user address space: no object is larger than 2^47 bytes
@@ -262,7 +264,44 @@ class State(object):
             return True
         if self.upper(d) < 0:
             return False
+        if self.facts and len(d.t) <= 6:
+            if self.combine(d, 4, [1500], set()):
+                return True
+            if self.combine(-d - 1, 4, [1500], set()):
+                return False
         return None
+
+    def combine(self, d, depth, budget, seen):
+        """d >= 0 as a non-negative combination of recorded facts plus interval bounds (elimination search)."""
+        if self.irange(d)[0] >= 0:
+            return True
+        if depth == 0 or budget[0] <= 0 or d in seen:
+            return False
+        seen.add(d)
+        # atoms whose interval contribution is what makes the bound fail, most harmful first
+        bad = []
+        for a, c in d.t:
+            lo, hi = self.arange(a)
+            contrib = c * lo if c > 0 else c * hi
+            if (c > 0 and lo <= -INF) or (c < 0 and hi >= INF):
+                contrib = -INF
+            bad.append((contrib, a, c))
+        bad.sort(key=lambda x: x[0])
+        for contrib, a, c in bad[:3]:
+            for f in self.facts:
+                fc = dict(f.t).get(a)
+                if not fc or fc * c <= 0:
+                    continue
+                budget[0] -= 1
+                if budget[0] <= 0:
+                    return False
+                g = math.gcd(abs(fc), abs(c))
+                d2 = d.scale(abs(fc) // g) - f.scale(abs(c) // g)
+                if len(d2.t) > 7:
+                    continue
+                if self.combine(d2, depth - 1, budget, seen):
+                    return True
+        return False
 
     def is_eq0(self, d):
         if not d.t:
@@ -420,11 +459,18 @@ class State(object):
                     if not fa <= atoms:
                         atoms |= fa
                         grew = True
+        # values read from memory at positions that the atoms in play determine take part as well
+        # (two reads that coincide under the assignment must agree, and their recorded ranges must hold)
+        for a2 in list(self.rng):
+            if isinstance(a2, tuple) and a2[0] in ('load', 'tbl') and isinstance(a2[2], Lin) and a2 not in atoms:
+                oa = base_atoms(a2[2])
+                if oa and oa <= atoms and len(atoms) < 18:
+                    atoms.add(a2)
         rel_ne = [f for f in self.nefacts if base_atoms(f) & atoms]
         for f in rel_ne:
             atoms |= base_atoms(f)
         atoms = sorted(atoms, key=repr)
-        if len(atoms) > 12:
+        if len(atoms) > 20:
             return None
         pool = set([0, 1, 2, 3])
         rngs = {}
@@ -446,8 +492,14 @@ class State(object):
             for v in ((1 << p) - 1, 1 << p):
                 pool.add(v)
         cands = {}
+        lin_atoms0 = set()
+        for l in lins:
+            base_atoms(l, lin_atoms0)
         for a in atoms:
             lo, hi = rngs[a]
+            if hi - lo <= 300 and (a in lin_atoms0 or isinstance(a, tuple)):
+                cands[a] = list(range(lo, hi + 1))       # small domains (bytes) are enumerated completely
+                continue
             c = sorted(v for v in pool if lo <= v <= hi)
             if len(c) > 14:
                 # keep the extremes and the small values
@@ -488,7 +540,30 @@ class State(object):
                     vals = [eval_lin(l, env) for l in lins]
                 except KeyError:
                     return None
-                return dict(env) if want(vals) else None
+                if not want(vals):
+                    return None
+                # refined ranges of derived atoms (masks, shifts, quotients ...) over the assigned symbols must hold
+                for a2, (rlo, rhi) in self.rng.items():
+                    if isinstance(a2, tuple) and a2[0] in DERIVED and a2 not in env:
+                        try:
+                            if not (base_atoms(Lin.atom(a2)) <= set(env)):
+                                continue
+                            v2 = eval_atom(a2, env)
+                        except KeyError:
+                            continue
+                        if v2 < rlo or v2 > rhi:
+                            return None
+                # two reads of the same location must have received the same value
+                seen_loc = {}
+                for a2, v2 in env.items():
+                    if isinstance(a2, tuple) and a2[0] in ('load', 'tbl') and isinstance(a2[2], Lin):
+                        try:
+                            loc = (a2[0], a2[1], a2[3], a2[4], eval_lin(a2[2], env))
+                        except KeyError:
+                            continue
+                        if seen_loc.setdefault(loc, v2) != v2:
+                            return None
+                return dict(env)
             a = order[k]
             for v in cands[a]:
                 budget[0] -= 1
